@@ -49,7 +49,7 @@ func c03prop(r *simkit.Run) {
 
 	request := func(src int, amount int64) {
 		now := clock.Now().Sub(start)
-		res := lim.do(fmt.Sprintf("s%d", src), amount)
+		res := lim.do(srcName(src), amount)
 		opsLeft--
 		if firstSeen[src] < 0 {
 			firstSeen[src] = now
